@@ -285,7 +285,56 @@ func preliminaryProcessesChecks(processes []*Process, assumedFreeNames []Name, g
 		}
 	}
 
+	// The processes must form a forest: a cycle (e.g. a waits for b while b waits for a) can never make progress
+	if cycle := cyclicProcessDependency(processes); cycle != "" {
+		return fmt.Errorf("the processes %s depend on each other cyclically", cycle)
+	}
+
 	return nil
+}
+
+// Looks for a cycle in the 'uses' relation between the top-level processes (process i uses process j when the
+// body of i mentions one of the provider names of j). Returns the names on some cycle, or "" if there is none
+func cyclicProcessDependency(processes []*Process) string {
+	providerOf := make(map[string]int)
+	for i := range processes {
+		for _, provider := range processes[i].Providers {
+			providerOf[provider.Ident] = i
+		}
+	}
+
+	// 0 = not visited, 1 = on the current path, 2 = done
+	state := make([]int, len(processes))
+	var visit func(i int) string
+	visit = func(i int) string {
+		state[i] = 1
+		for _, fn := range NamesInFirstListOnly(processes[i].Body.FreeNames(), processes[i].Providers) {
+			j, isProcess := providerOf[fn.Ident]
+			if !isProcess {
+				continue
+			}
+			if state[j] == 1 {
+				return fn.Ident
+			}
+			if state[j] == 0 {
+				if found := visit(j); found != "" {
+					return fn.Ident + ", " + found
+				}
+			}
+		}
+		state[i] = 2
+		return ""
+	}
+
+	for i := range processes {
+		if state[i] == 0 {
+			if found := visit(i); found != "" {
+				return found
+			}
+		}
+	}
+
+	return ""
 }
 
 // Ensure that for Γ ⊢ P :: (a : A), Γ ≥ A, where A is the succedentType
